@@ -232,7 +232,6 @@ reg(Zoo(
                     R('SS3', 'e5', 'PExit'),
                     R('SS1', 'e7', 'SS3', a=False),
                     R('SS2', 'e5', 'PExit', a=False, g=False),
-                    R('SS1b', 'e7', 'SS2b', a=False, g=False),
                 ],
             )),
             S('St2'),
